@@ -8,7 +8,11 @@ without a wildcard, NO ACTION/RESTRICT arms reject, and the delete-side CASCADE/
 DEFAULT arms call the action of the same name; (d) cascade_delete re-checks every child row it is
 about to delete (multi-level cascades) in a loop over the same rows, on every path; (e) hash-index
 probes made by the FK validators are keyed in the index's column order; (f) per-column vectors
-consumed by position are filled on every iteration; (g) "key changed" tests are existential.
+consumed by position are filled on every iteration; (g) "key changed" tests are existential;
+(h) every syntactic form that declares a foreign key reaches the schema: for each AST enum variant that carries a
+ReferentialAction (discovered from the type definitions: the table-level FOREIGN KEY constraint and the column-level
+REFERENCES clause) some executor function matches that variant with an arm that reads its payload and registers a
+foreign key (TableSchema::add_foreign_key) - a declaration that is parsed and then dropped is never enforced.
 Does NOT decide key comparison semantics."""
 from ..engine.callgraph import CallGraph
 from ..engine.paths import Precede, switch_target, _uses_local
@@ -68,6 +72,7 @@ def fk_empty_edges(fn):
 
 
 def run(ctx):
+    fk_declaration_rule(ctx)
     prog = ctx.prog
     cg = CallGraph(prog)
 
@@ -217,3 +222,52 @@ def run(ctx):
     shared.key_order_rule(ctx, 'C12.e2')
     shared.aligned_rule(ctx, 'C12.f', lambda f: bool(FKMOD.match(f.nice)), floor=1)
     shared.quantifier_rule(ctx, 'C12.g', lambda f: f.nice.startswith('vibesql_executor::update::') or f.nice.startswith('vibesql_executor::delete::'))
+
+
+def fk_declaration_rule(ctx):
+    """(h) no foreign-key declaration form is parsed and then dropped"""
+    from ..engine.symexpr import Sym
+    from . import shared
+    prog = ctx.prog
+    ctx.rule('C12.h', 'for every vibesql_ast enum variant with a ReferentialAction field: a vibesql_executor function has a match arm for it whose region uses the '
+             'payload, and that function calls TableSchema::add_foreign_key')
+    forms = []
+    for path, adt in prog.adts.items():
+        if not path.startswith('vibesql_ast::') or not adt.get('variants') or len(adt['variants']) < 2:
+            continue
+        for v in adt['variants']:
+            if any(any(a.endswith('::ReferentialAction') for a in fl.get('adts', [])) for fl in v.get('fields', [])):
+                forms.append((path, v['name']))
+    ctx.floor('C12.h declaration forms (AST variants carrying a ReferentialAction)', len(forms), 2)
+    for path, vname in forms:
+        consumers = []
+        for f in prog.fns.values():
+            if f.unit != 'vibesql_executor' or shared.is_test(f):
+                continue
+            try:
+                sws = enum_switches(prog, f, path)
+            except KeyError:
+                sws = []
+            if not sws:
+                continue
+            registers = any((callee_name(t) or '').endswith('TableSchema::add_foreign_key') for _i, t in f.calls())
+            for sw in sws:
+                tb = sw['arms'].get(vname)
+                if tb is None:
+                    continue
+                region = arm_region(f, tb)
+                uses_payload = False
+                for b in region:
+                    for st in f.blocks[b]['s']:
+                        if 'd' in st and ('@' + vname) in str(st['v']):
+                            uses_payload = True
+                        if 'd' in st and st['v']['r'] in ('ref', 'use') and any(isinstance(pe, str) and vname in pe for pe in (st['v'].get('p') or [0, []])[1]):
+                            uses_payload = True
+                consumers.append({'fn': f.nice, 'reads_payload': uses_payload, 'registers': registers})
+        ok = any(c['reads_payload'] and c['registers'] for c in consumers)
+        short = path.rsplit('::', 1)[1] + '::' + vname
+        ctx.instance(f'h/{short}', {'rule': 'C12.h', 'form': short, 'matched_in': [c for c in consumers][:8], 'stored': ok})
+        if not ok:
+            ctx.finding(f'h/{short}', f'the foreign-key declaration form {short} is parsed but no executor function that matches it registers a foreign key '
+                        '(TableSchema::add_foreign_key): `p INT REFERENCES par(id) ON DELETE CASCADE` creates a table without the constraint - orphan rows are '
+                        'accepted and the referential action never runs', next((c['fn'] for c in consumers), 'vibesql_executor'))
